@@ -351,7 +351,7 @@ def judge(ctx, case, impl, outs, extra):
         ctx.mismatch(case, "firstN selects a different number of poses than Python slicing", k, k_model)
     if "err" in impl:
         if impl["err"].startswith("CRASH"):
-            ctx.fail(case, "no-crash", impl["err"])
+            ctx.fail(case, "no-unexpected-exception", impl["err"])
         else:
             ctx.count("branch", "refused:" + impl["err"])
             # oracle: a refusal is legitimate only when the poses used do not determine the alignment
